@@ -289,6 +289,10 @@ def run(inst, claims_fn, witness_fn=None, engine=None, timeout_ms=10000, split_d
     if engine is None:
         engine = 'nra' if cfg.fam == 'dist' else 'lra'   # distance family: products of sqrt variables -> nlsat per query
     mk = runner.lra_engine(timeout_ms) if engine == 'lra' else runner.nra_engine(timeout_ms)
+    if opts.get('false_first'):
+        # unsharded instances cut by a time budget: start the depth-first enumeration in the other corner of the path space
+        strat = 'inc' if engine == 'lra' else 'fresh'
+        mk = lambda: E.Engine(timeout_ms=timeout_ms, strategy=strat, first=False)
     if mode == 'split':
         shims.uninstall()
         return dict(name=iname, prefixes=runner.split(mk, scenario, split_depth or 4), inst=inst[:6])
